@@ -11,5 +11,5 @@ Lemma bb_inverts_high : inverts bbf (8414 / 10000) (95 / 100) (1 / 1000).
 Proof.
   intros y Hy. unfold bbf, bb_f. cbv zeta. rewrite (Rabs_right y) by lra.
   destruct (Rlt_dec y _) as [Hs|Hb]; [exfalso; lra|]. destruct (Rlt_dec 0 y); [|exfalso; lra]. cbv iota beta.
-  unfold Lang. interval with (i_bisect y, i_depth 18, i_prec 40).
+  unfold Lang. interval with (i_bisect y, i_taylor y, i_degree 6, i_depth 30, i_prec 50).
 Qed.
